@@ -130,6 +130,15 @@ class Desugar(ast.NodeTransformer):
                 uses = {p: sum(1 for x in ast.walk(ret) if isinstance(x, ast.Name) and x.id == p) for p in params}
                 if all(u == 1 for u in uses.values()) and params:
                     self.leaf_helpers[s.name] = s
+        # NAME = struct.Struct("<fmt>") at module level, bound once: NAME.unpack(x) is struct.unpack("<fmt>", x)
+        self.structs: Dict[str, ast.expr] = {}
+        for s in module_tree.body:
+            if isinstance(s, (ast.Assign, ast.AnnAssign)) and s.value is not None and isinstance(s.value, ast.Call):
+                tg = s.targets if isinstance(s, ast.Assign) else [s.target]
+                c = s.value
+                if len(tg) == 1 and isinstance(tg[0], ast.Name) and counts.get(tg[0].id) == 1 and ast.unparse(c.func) == "struct.Struct" and len(c.args) == 1 and \
+                        not c.keywords and isinstance(c.args[0], ast.Constant) and isinstance(c.args[0].value, (str, bytes)):
+                    self.structs[tg[0].id] = c.args[0]
         self.dict_helpers: Dict[str, ast.FunctionDef] = {}
         for s in module_tree.body:
             if isinstance(s, ast.FunctionDef) and self._dict_helper(s) and \
@@ -434,6 +443,27 @@ class Desugar(ast.NodeTransformer):
                 out.append(one)
             self.count["group-split"] = self.count.get("group-split", 0) + 1
             return out
+        if self.func_stack and len(node.targets) == 1 and isinstance(node.targets[0], ast.Tuple) and len(node.targets[0].elts) == 2 and isinstance(v, ast.Call) \
+                and isinstance(v.func, ast.Name) and v.func.id == "divmod" and len(v.args) == 2 and not v.keywords and all(_simple(a) for a in v.args) \
+                and all(isinstance(t_, ast.Name) for t_ in node.targets[0].elts) and not self._is_local("divmod"):
+            # q, r = divmod(x, y)  ->  r = x % y; q = x // y   (the target that x and y do not mention first)
+            tq, tr = node.targets[0].elts
+            used = {x.id for a in v.args for x in ast.walk(a) if isinstance(x, ast.Name)}
+            mk = lambda t_, op: ast.Assign(targets=[ast.Name(id=t_.id, ctx=ast.Store())], value=ast.BinOp(left=copy.deepcopy(v.args[0]), op=op, right=copy.deepcopy(v.args[1])))
+            order = None
+            if tr.id not in used:
+                order = [mk(tr, ast.Mod()), mk(tq, ast.FloorDiv())]
+            elif tq.id not in used:
+                order = [mk(tq, ast.FloorDiv()), mk(tr, ast.Mod())]
+            if order is not None and tq.id != tr.id:
+                for o in order:
+                    ast.copy_location(o, node)
+                    for x in ast.walk(o):
+                        if isinstance(x, (ast.expr,)):
+                            ast.copy_location(x, node)
+                    ast.fix_missing_locations(o)
+                self.count["divmod"] = self.count.get("divmod", 0) + 1
+                return order
         pre = self._splat_helper(node, v) if self.func_stack else None
         if pre is not None:
             r = self.visit(node)
@@ -837,6 +867,17 @@ class Desugar(ast.NodeTransformer):
             ast.fix_missing_locations(new)
             self.count["partial"] = self.count.get("partial", 0) + 1
             node = new
+        if isinstance(node.func, ast.Attribute) and isinstance(node.func.value, ast.Name) and node.func.value.id in self.structs and \
+                node.func.attr in ("unpack", "pack", "unpack_from", "iter_unpack") and not (self.func_stack and self._is_local(node.func.value.id)):
+            new = ast.Call(func=ast.Attribute(value=ast.Name(id="struct", ctx=ast.Load()), attr=node.func.attr, ctx=ast.Load()),
+                           args=[copy.deepcopy(self.structs[node.func.value.id])] + list(node.args), keywords=list(node.keywords))
+            ast.copy_location(new, node)
+            for x in ast.walk(new):
+                if isinstance(x, ast.expr) and not hasattr(x, "lineno"):
+                    ast.copy_location(x, node)
+            ast.fix_missing_locations(new)
+            self.count["struct"] = self.count.get("struct", 0) + 1
+            return new
         if isinstance(node.func, ast.Name) and node.func.id in self.leaf_helpers and not (self.func_stack and self._is_local(node.func.id)) and not node.keywords and \
                 not any(isinstance(a, ast.Starred) for a in node.args) and not (self.func_stack and getattr(self.func_stack[-1], "name", None) == node.func.id):
             fn = self.leaf_helpers[node.func.id]
@@ -1000,6 +1041,27 @@ class Desugar(ast.NodeTransformer):
 
     # ------------------------------------------------------------------ constant-table loops
     def visit_For(self, node: ast.For):
+        it = node.iter
+        if self.func_stack and isinstance(it, ast.Call) and ast.unparse(it.func) in ("itertools.count", "count") and not it.keywords and len(it.args) <= 1 and \
+                isinstance(node.target, ast.Name) and not node.orelse and not _loop_level(node.body, (ast.Continue,)) and \
+                not any(isinstance(x, ast.Name) and x.id == node.target.id and isinstance(x.ctx, (ast.Store, ast.Del)) for b in node.body for x in ast.walk(b)) and \
+                all(isinstance(a, ast.Constant) and isinstance(a.value, int) for a in it.args):
+            # for i in itertools.count(k): BODY   ->   i = k; while True: BODY; i += 1
+            start = it.args[0] if it.args else ast.Constant(value=0)
+            init = ast.Assign(targets=[ast.Name(id=node.target.id, ctx=ast.Store())], value=start)
+            step = ast.AugAssign(target=ast.Name(id=node.target.id, ctx=ast.Store()), op=ast.Add(), value=ast.Constant(value=1))
+            w = ast.While(test=ast.Constant(value=True), body=list(node.body) + [step], orelse=[])
+            for x in (init, w):
+                ast.copy_location(x, node)
+            for x in list(ast.walk(init)) + [step] + list(ast.walk(step)):
+                if isinstance(x, (ast.expr, ast.stmt)) and not hasattr(x, "lineno"):
+                    ast.copy_location(x, node)
+            ast.copy_location(step, node.body[-1] if node.body else node)
+            ast.fix_missing_locations(init)
+            ast.fix_missing_locations(w)
+            self.count["count-loop"] = self.count.get("count-loop", 0) + 1
+            r = self.visit(w)
+            return [init] + (r if isinstance(r, list) else [r])
         gen = self._generator_call(node.iter) if not node.orelse and self.func_stack else None
         if gen is not None and not _loop_level(node.body, (ast.Break, ast.Continue)) and \
                 not any(isinstance(x, (ast.Yield, ast.YieldFrom)) for b in node.body for x in ast.walk(b)):
